@@ -707,6 +707,10 @@ def run_case(case, ctx):
             if np.any(p < lo) or np.any(p > hi):
                 continue                                   # previous design already refuted
             _, g = _ref_fg(P, p)
+            if share == "float32" and k == 0 and irun == 0:
+                # the sensitivities the objective module hands over while the states are still single precision (minimize_oc writes
+                # double-precision designs back from the first step on)
+                g = g.astype(np.float32).astype(float)
             if np.any(g > 1e-15):
                 npos += 1
             gc = np.minimum(g, 0.0)
